@@ -165,9 +165,22 @@ func main() {
 				}
 				by[key(id)] = ctxJ(sc)
 			}
-			subs = append(subs, map[string]any{"quorum": ad.IDsU(sq), "by": by})
+			// deriving is a pure function of (session, sub-quorum): one member derives again, later and out of step with the others
+			again := map[string]any{}
+			first := sq[rng.IntN(len(sq))]
+			sc2, err := ctxs[first].SubContext(ad.IDSet(sq...))
+			if err != nil {
+				panic(err)
+			}
+			again[key(first)] = ctxJ(sc2)
+			subs = append(subs, map[string]any{"quorum": ad.IDsU(sq), "by": by, "again": again})
 		}
-		w.Emit(map[string]any{"a": "session", "k": fmt.Sprintf("session#%d", s), "api": api, "ids": ad.IDsU(ids), "by": full, "subs": subs})
+		// ... and leaves the parent context as it was
+		after := map[string]any{}
+		for _, id := range ids {
+			after[key(id)] = ctxJ(ctxs[id])
+		}
+		w.Emit(map[string]any{"a": "session", "k": fmt.Sprintf("session#%d", s), "api": api, "ids": ad.IDsU(ids), "by": full, "subs": subs, "after": after})
 	}
 	fmt.Printf("events=%d\n", w.N)
 }
